@@ -10,7 +10,9 @@ Open Scope Qc_scope.
 (* a CQM: its objective and its labelled constraint left-hand sides (what a model handed to
    add_constraint / set_objective becomes part of) *)
 Inductive obj := OModel (p : poly) | OSet (s : sset) | OCqm (objective : poly) (cons : list (nat * poly))
-               | OVars (ls : list label).        (* a dimod.variables.Variables object *)
+               | OVars (ls : list label)         (* a dimod.variables.Variables object *)
+               | OOpaque (id : nat).             (* an object of a class with no model here (BinaryPolynomial, DQM): its
+                                                    bit-for-bit snapshot, interned by the harness (equal ids <=> equal snapshots) *)
 Definition heap := list obj.
 
 (* copy-producing calls *)
